@@ -178,7 +178,7 @@ def rule_assign(repo: Repo, rid: str = "C12.assign") -> RuleResult:
             if fi is None:
                 raise AnalysisError(f"{rid}: helper {v.id} for {key!r} not found")
             try:
-                got = A.assignment_effect(fi.node)
+                got = A.assignment_effect(L.fn(repo, fi.qn).node, lambda e: _as_lambda(repo, m, e))
             except A.Uninterpretable as e:
                 raise AnalysisError(f"{rid}: {e}")
             where, node = fi, fi.node
@@ -388,7 +388,7 @@ def rule_leaf(repo: Repo) -> RuleResult:
     """calculate(): a leaf evaluates to its function's value or to its own constant; inner nodes recurse on both children."""
     r = RuleResult("C12.leaf", "calculate: leaf -> fluent value / constant, inner node -> table applied to both recursive results",
                    "ordinary arithmetic on the current fluent values")
-    f = repo.func(f"{NE}::calculate")
+    f = L.fn(repo, f"{NE}::calculate")
     p = L.prov(repo, f)
     r.site(f.qn)
     rets = L.func_returns(f)
@@ -414,7 +414,7 @@ def rule_leaf(repo: Repo) -> RuleResult:
     else:
         r.fail(Finding("C12.leaf", f, "recursion:children", f"calculate recurses on children {sorted(idx)}; expected both 0 and 1"))
     # set_expression_value visits both children
-    g = repo.func(f"{NE}::set_expression_value")
+    g = L.fn(repo, f"{NE}::set_expression_value")
     pg = L.prov(repo, g)
     r.site(g.qn)
     rec = [c for c in L.calls_in(g.node) if isinstance(c.func, ast.Name) and c.func.id == g.name]
